@@ -120,6 +120,10 @@ class EventDataframeDataReader(AbstractDataframeDataReader):
                 "Events must be stored in type int, with 0 equal to censored event"
             )
         df_event[self.event_bool_name] = df_event[self.event_bool_name].astype(int)
+        if (df_event[self.event_bool_name] < 0).any():
+            raise LeaspyDataInputError(
+                "Events must be coded by integers >= 0, with 0 equal to censored event"
+            )
         # Assert one unique event per patient and group to drop duplicates
         if (
             not (
